@@ -2,6 +2,7 @@ package main
 
 import (
 	"fmt"
+	"go/token"
 	"go/types"
 	"strings"
 
@@ -180,4 +181,71 @@ func guardBeforeEraseRule(r *Report, p *Prog, rule string) int {
 		}
 	}
 	return n
+}
+
+// syntheticBoundRule (C12.j SYNTHETIC-BOUND-INERT): the lower bound of "<V" is
+// not written by the user but made by MinVersion, and must not switch on what
+// a user-written prerelease bound switches on. For the SemVer systems
+// MinVersion clears isPrerelease for that reason; PyPI's minimum is the dev
+// release 0.0.0.dev0, which IS a dev release, so the test "is a bound of this
+// span a dev release?" in Set.matchVersion has to except the synthetic bound,
+// or "<2.0" admits every prerelease and dev release below 2.0 (pip admits
+// none, and Constraint.HasPrerelease says none either).
+func syntheticBoundRule(r *Report, p *Prog, rule string) {
+	f := p.lookupFn("(semver.Set).matchVersion")
+	key := "(semver.Set).matchVersion: the dev test of a lower bound excepts the bound MinVersion made"
+	if f == nil {
+		r.bad(rule, key, "", "matchVersion not found: anchor lost")
+		return
+	}
+	isMinOfSpan := func(v ssa.Value) bool {
+		for d := 0; d < 3 && v != nil; d++ {
+			switch x := v.(type) {
+			case *ssa.UnOp:
+				if fa, ok := x.X.(*ssa.FieldAddr); ok {
+					if pt, ok := fa.X.Type().Underlying().(*types.Pointer); ok && strings.HasSuffix(pt.Elem().String(), "semver.span") {
+						return pt.Elem().Underlying().(*types.Struct).Field(fa.Field).Name() == "min"
+					}
+				}
+				return false
+			case *ssa.Field:
+				if strings.HasSuffix(x.X.Type().String(), "semver.span") {
+					return x.X.Type().Underlying().(*types.Struct).Field(x.Field).Name() == "min"
+				}
+				return false
+			default:
+				return false
+			}
+		}
+		return false
+	}
+	devTests := 0
+	marked := false
+	var at token.Pos
+	for _, b := range f.Blocks {
+		for _, in := range b.Instrs {
+			switch x := in.(type) {
+			case *ssa.Call:
+				if staticCalleeName(x) == "(*semver.Version).isPyPIDev" && isMinOfSpan(x.Common().Args[0]) {
+					devTests++
+					at = x.Pos()
+				}
+			case *ssa.FieldAddr:
+				if pt, ok := x.X.Type().Underlying().(*types.Pointer); ok && strings.HasSuffix(pt.Elem().String(), "semver.Version") {
+					name := pt.Elem().Underlying().(*types.Struct).Field(x.Field).Name()
+					if name != "isPrerelease" && name != "pre" && name != "num" && name != "sys" && name != "ext" && name != "str" && name != "build" && name != "buf" && name != "userNumCount" && isMinOfSpan(x.X) {
+						marked = true // a field that is neither a number nor a tag: the marker of a made-up bound
+					}
+				}
+			}
+		}
+	}
+	switch {
+	case devTests == 0:
+		r.bad(rule, key, p.pos(f.Pos()), "no dev test of a span's lower bound in matchVersion: anchor lost")
+	case !marked:
+		r.bad(rule, key, p.pos(at), "the lower bound of a span is asked whether it is a dev release without asking whether the user wrote it: MinVersion's PyPI bound 0.0.0.dev0 is one, so \"<2.0\" and \"<=2.0\" admit every prerelease and dev release below the bound, while \">=0,<2.0\" admits none")
+	default:
+		r.ok(rule, key, p.pos(at), "the condition also reads the marker of a bound that MinVersion made")
+	}
 }
